@@ -46,7 +46,9 @@ func (UND) Generate(seed uint64, tier string) *core.Scenario {
 		db := r.Intn(3)
 		switch x := r.Intn(100); {
 		case x < 14:
-			b.Ops = append(b.Ops, UndOp{Kind: "create", DB: db})
+			// the directory a database gets keeps the spelling of its CREATE: sometimes another letter case
+			// than the one it (or a dropped namesake) had before
+			b.Ops = append(b.Ops, UndOp{Kind: "create", DB: db, Case: []int{0, 0, 1, 2}[r.Intn(4)]})
 		case x < 50:
 			b.Ops = append(b.Ops, UndOp{Kind: "fill", DB: db, N: r.Intn(1000)})
 		case x < 68:
@@ -153,7 +155,17 @@ func (UND) Execute(t *testing.T, sc *core.Scenario) *core.Result {
 			res.Fault("clean-restart")
 			// what was live stays live, what was dropped stays restorable: checked by later steps
 		case "create":
-			_, err := s.Exec(ctx, "CREATE DATABASE `"+name+"`")
+			spelled := name
+			switch op.Case {
+			case 1:
+				spelled = strings.ToUpper(name)
+			case 2:
+				spelled = strings.ToUpper(name[:1]) + name[1:]
+			}
+			if spelled != name {
+				res.Probe("created_with_other_letter_case")
+			}
+			_, err := s.Exec(ctx, "CREATE DATABASE `"+spelled+"`")
 			if err == nil {
 				if live[name] {
 					res.Violate("create-over-live-database", "-", step, "CREATE DATABASE %s succeeded although it exists", name)
